@@ -707,7 +707,7 @@ func main() {
 	f := gallina.ParseFlags()
 	meta := gallina.NewMeta("C19", f.Seed, f.Tier)
 	meta.Rule = "corpus + seeded generation; distinct by full input (inputs/sets/chunk lists, limit, script); non-trivial = chain: >=2 inputs and >=2 distinct timestamps; sets: some label set occurs in >=2 sets; chunks: compacting, >=2 iterators and the number of output chunks differs from the number of input chunks (something was merged, collapsed or split)"
-	cf := &gallina.CaseFile{Dir: f.Out, Type: "case", PerShard: 400,
+	cf := &gallina.CaseFile{Dir: f.Out, Type: "case", PerShard: 260,
 		Preamble: "From Coq Require Import List ZArith.\nFrom Verif Require Import lib.Int64 model.Merge corr.CorrC19.\nImport ListNotations.\nOpen Scope Z_scope.\n",
 		Footer:   gallina.StdFooter}
 	h := &H{meta: meta, cf: cf, seen: map[string]bool{}}
@@ -754,9 +754,9 @@ func main() {
 	}
 
 	// ---------------- generated
-	nChain := f.Count(420, 16000)
-	nSets := f.Count(140, 5000)
-	nChunks := f.Count(160, 5000)
+	nChain := f.Count(230, 6000)
+	nSets := f.Count(80, 2000)
+	nChunks := f.Count(90, 2000)
 	base := 0
 	for i := 0; i < nChain; i++ {
 		r := gen.Fork(f.Seed, base+i)
@@ -832,7 +832,7 @@ func main() {
 			n = 0
 		}
 		mixed := r.Chance(1, 2)
-		big := r.Chance(1, 8)
+		big := r.Chance(1, 12)
 		its := make([][]Chk, n)
 		for j := range its {
 			switch {
